@@ -2,6 +2,7 @@ package ksim
 
 import (
 	"fmt"
+	mrand "math/rand"
 	"os"
 	"strings"
 	"testing"
@@ -81,6 +82,8 @@ func RunOne(t *testing.T, tape *Tape, seed int64, opts RunOpts) *RunResult {
 }
 
 func runInBubble(tape *Tape, seed int64, opts RunOpts) *RunResult {
+	// client-go's retry/backoff jitter draws from the global math/rand source: pin it per run
+	mrand.Seed(1)
 	s := &Sim{T: tape, Stats: map[string]int{}, Probes: map[string]int{}}
 	s.start = time.Now()
 	sc, cfg := DrawScenario(tape, opts.Property)
@@ -154,7 +157,7 @@ func (s *Sim) onCommit(w *Write) {
 			// resourceVersion is a global counter: order of commuting pod patches may differ, so it is not logged
 			body = fmt.Sprintf("g%d", w.New.GetGeneration())
 		}
-		if w.Key.GK.Kind == "Pod" && w.Verb == "patch" && w.Actor == "br-ctrl" {
+		if w.Commut {
 			s.EvLog.addCommutative("W|" + w.Actor + "|" + w.Verb + "|" + w.Key.String() + "|" + body)
 		} else {
 			s.EvLog.add(fmt.Sprintf("W|%d|%s|%s|%s|%s|%s", w.Seq, w.Actor, w.Verb, w.Key, body, w.Time.Format("15:04:05.000")))
